@@ -170,9 +170,17 @@ func c06GenHooks(rng *Rng, nHooks int, allowEvents bool) []*c06Hook {
 			o := PickOne(rng, orders)
 			h.order = &o
 		}
+		split := false
 		if rng.Chance(65) {
 			nb := rng.Range(1, 4)
-			for j := 1; j <= nb; j++ {
+			if allowEvents && h.v1 && rng.Chance(30) {
+				// the Synchronizations of the hook are delivered by SEVERAL executions, and a binding that is
+				// synchronised late gets Events in a queue of its own
+				h.kube = c06SplitBindings(rng)
+				nb = len(h.kube)
+				split = true
+			}
+			for j := 1; j <= nb && !split; j++ {
 				b := c06Bind{name: fmt.Sprintf("b%d", j), execSync: rng.Chance(70)}
 				if rng.Chance(45) {
 					b.group = rng.Range(1, 2)
@@ -215,6 +223,15 @@ func c06GenHooks(rng *Rng, nHooks int, allowEvents bool) []*c06Hook {
 				h.fails = append(h.fails, rng.Chance(60))
 			}
 		}
+		if split && rng.Chance(80) {
+			// a failure script long enough to reach the later executions of the hook (onStartup, the combined
+			// execution, the skipped one does not count, the late Synchronizations): the retry delays of the late
+			// Synchronizations are the windows in which the harness creates a Secret
+			h.fails = nil
+			for k := rng.Range(2, 6); k > 0; k-- {
+				h.fails = append(h.fails, rng.Chance(60))
+			}
+		}
 		hooks = append(hooks, h)
 	}
 	sort.Slice(hooks, func(i, j int) bool { return hooks[i].path < hooks[j].path })
@@ -223,6 +240,61 @@ func c06GenHooks(rng *Rng, nHooks int, allowEvents bool) []*c06Hook {
 	}
 	c06LabelFaultBindings(hooks)
 	return hooks
+}
+
+// c06SplitBindings generates the binding list of a v1 hook whose Synchronizations are spread over several
+// executions of the main queue, in 2-3 segments: a segment is either a RUN that taskHandleHookRun combines into
+// one execution (a grouped head with the flag true and 1-2 followers with the flag true — of the same group,
+// of another group, or ungrouped with a queue of their own and watching Secrets) or ONE ungrouped binding with
+// the flag true, a queue of its own, watching Secrets (never combined: synchronised by an execution of its
+// own). Behind a run stands a binding with executeHookOnSynchronization=false (grouped or not): it stops the
+// combination, so what follows is synchronised later. The list ends with a late Secret-watching binding.
+func c06SplitBindings(rng *Rng) []c06Bind {
+	var bs []c06Bind
+	add := func(b c06Bind) {
+		b.name = fmt.Sprintf("b%d", len(bs)+1)
+		bs = append(bs, b)
+	}
+	late := func() c06Bind {
+		return c06Bind{execSync: true, queue: fmt.Sprintf("q%d", rng.Range(1, 3)), secret: true}
+	}
+	lastWasRun := false
+	for seg := rng.Range(2, 3); seg > 0 && len(bs) < 6; seg-- {
+		if lastWasRun {
+			stopper := c06Bind{execSync: false}
+			if rng.Chance(40) {
+				stopper.group = rng.Range(1, 2)
+			}
+			add(stopper)
+		}
+		if rng.Chance(60) {
+			g := rng.Range(1, 2)
+			head := c06Bind{group: g, execSync: true}
+			if rng.Chance(30) {
+				head.queue = fmt.Sprintf("q%d", rng.Range(1, 3))
+			}
+			add(head)
+			for k := rng.Range(1, 2); k > 0; k-- {
+				switch {
+				case rng.Chance(50):
+					add(c06Bind{group: g, execSync: true})
+				case rng.Chance(40):
+					add(c06Bind{group: 3 - g, execSync: true})
+				default:
+					add(late())
+				}
+			}
+			lastWasRun = true
+		} else {
+			add(late())
+			lastWasRun = false
+		}
+	}
+	if lastWasRun {
+		add(c06Bind{execSync: false})
+		add(late())
+	}
+	return bs
 }
 
 // c06LabelFaultBindings gives every binding named in a fault sequence its own label selector.
@@ -795,7 +867,39 @@ func c06Classify(c *Case, hooks []*c06Hook) {
 	if v0kube > 0 {
 		c.Note("v0-hooks-with-kubernetes-bindings")
 	}
+	for _, h := range hooks {
+		if c06LateAfterCombined(h) {
+			c.Note("late-own-Synchronization-behind-a-combined-one")
+			break
+		}
+	}
 	c.Nontrivial = n >= 2 && (mx >= 2 || grouped > 0 || skipped > 0 || fails > 0 || kfails > 0)
+}
+
+// c06LateAfterCombined: the hook has a combined Synchronization execution (a grouped head with the flag true and
+// at least one follower with the flag true) and, behind the binding that stops that combination, an ungrouped
+// Secret-watching binding of another queue that is synchronised by a later execution of its own.
+func c06LateAfterCombined(h *c06Hook) bool {
+	if !h.v1 {
+		return false
+	}
+	combined := false
+	for i := 0; i < len(h.kube); {
+		b := h.kube[i]
+		j := i + 1
+		if b.execSync && b.group != 0 {
+			for j < len(h.kube) && h.kube[j].execSync {
+				j++
+			}
+			if j > i+1 {
+				combined = true
+			}
+		} else if b.execSync && b.group == 0 && b.secret && b.queue != "" && combined {
+			return true
+		}
+		i = j
+	}
+	return false
 }
 
 // c06OrderOnly: hook.Manager alone, up to 200 hooks, GetHooksInOrder compared directly.
@@ -855,7 +959,7 @@ func c06OrderOnly(r *Run, c *Case, rng *Rng, n int) {
 }
 
 func runC06(r *Run) {
-	r.Rule = "whole-operator starts: generated hook directories (1-25 bash hooks in nested paths, ORDER values drawn from a small pool so that many are equal, 30% of the cases one single ORDER; 0-4 kubernetes bindings per hook with groups g1/g2, queues, executeHookOnSynchronization true/false, v0 and v1 configs, every-second schedules, scripted exit codes for the first 1-3 startup executions of a hook; for 30% of the hooks with kubernetes bindings a fault sequence of the enabling itself: the EnableKubernetesBindings task fails 1-3 times, each time because the API server fails the initial LIST of one chosen binding's monitor — mostly not the first one — injected by a reactor of the fake dynamic client that recognises the binding by its own label selector) run by a real ShellOperator over kube-client/fake (ConfigMaps/Secrets present, Secrets created while the main queue runs for ungrouped bindings of other queues and for v0 bindings); back-off shortened through the public queue fields. Observation: GetHooksInOrder(OnStartup), the bootstrapped main queue, the global execution log written by the hooks (v0 binding contexts have no type: one of a kubernetes binding without a watch event counts as a Synchronization), the faults that were injected. Thorough adds the exhaustive scope of one v1 hook with every list of 1-3 bindings over {no group, g1, g2} x {flag true, false} (258 starts). Plus order-only cases: hook.Manager with 13-200 onStartup hooks, GetHooksInOrder compared directly. Non-trivial: >= 2 hooks and (equal ORDER values, or grouped bindings, or a binding with executeHookOnSynchronization=false, or scripted failures); distinct = distinct hook-line sequences."
+	r.Rule = "whole-operator starts: generated hook directories (1-25 bash hooks in nested paths, ORDER values drawn from a small pool so that many are equal, 30% of the cases one single ORDER; 0-4 kubernetes bindings per hook with groups g1/g2, queues, executeHookOnSynchronization true/false, v0 and v1 configs, every-second schedules, scripted exit codes for the first 1-3 startup executions of a hook; for 30% of the hooks with kubernetes bindings a fault sequence of the enabling itself: the EnableKubernetesBindings task fails 1-3 times, each time because the API server fails the initial LIST of one chosen binding's monitor — mostly not the first one — injected by a reactor of the fake dynamic client that recognises the binding by its own label selector) run by a real ShellOperator over kube-client/fake (ConfigMaps/Secrets present, Secrets created while the main queue runs for ungrouped bindings of other queues and for v0 bindings; 30% of the v1 hooks with kubernetes bindings in such a case get a SPLIT binding list of up to 7 bindings whose Synchronizations are spread over several executions — runs that are combined into one execution (grouped head, followers of the same/another group or ungrouped), each followed by a binding with the flag false that stops the combination, and ungrouped Secret-watching bindings of other queues that are synchronised late by executions of their own, with a failure script of 2-6 entries reaching those late executions); back-off shortened through the public queue fields. Observation: GetHooksInOrder(OnStartup), the bootstrapped main queue, the global execution log written by the hooks (v0 binding contexts have no type: one of a kubernetes binding without a watch event counts as a Synchronization), the faults that were injected. Thorough adds the exhaustive scope of one v1 hook with every list of 1-3 bindings over {no group, g1, g2} x {flag true, false} (258 starts). Plus order-only cases: hook.Manager with 13-200 onStartup hooks, GetHooksInOrder compared directly. Non-trivial: >= 2 hooks and (equal ORDER values, or grouped bindings, or a binding with executeHookOnSynchronization=false, or scripted failures); distinct = distinct hook-line sequences."
 	r.CaseTimeout = 120 * time.Second
 	ip := func(i int) *int { return &i }
 	mk := func(hs ...*c06Hook) []*c06Hook {
@@ -916,6 +1020,20 @@ func runC06(r *Run) {
 			&c06Hook{path: "c_v0.sh", v1: false, order: ip(3), kube: []c06Bind{{name: "b1", execSync: true, secret: true}, {name: "b2", execSync: true}}, kfail: []int{1}},
 		)
 		c06LabelFaultBindings(hs)
+		c06Classify(c, hs)
+		c.Nontrivial = true
+		c06Run(r, c, rng, hs, true)
+	})
+	r.One(5, func(c *Case, rng *Rng) {
+		c.Desc = "corpus: two bindings of one group (one combined Group execution), a binding with executeHookOnSynchronization=false that stops the combination, then an ungrouped Secret-watching binding of another queue whose own Synchronization fails twice; Secrets are created meanwhile"
+		hs := mk(
+			&c06Hook{path: "a.sh", v1: true, order: ip(2), fails: []bool{false, false, true, true}, kube: []c06Bind{
+				{name: "b1", group: 1, execSync: true}, {name: "b2", group: 1, execSync: true}, {name: "b3", execSync: false},
+				{name: "b4", execSync: true, queue: "q1", secret: true}}},
+			&c06Hook{path: "b.sh", v1: true, fails: []bool{true, false, true}, kube: []c06Bind{
+				{name: "b1", group: 2, execSync: true, queue: "q2"}, {name: "b2", execSync: true, queue: "q2", secret: true}, {name: "b3", group: 1, execSync: false},
+				{name: "b4", execSync: true, queue: "q3", secret: true}, {name: "b5", execSync: true, queue: "q1", secret: true}}},
+		)
 		c06Classify(c, hs)
 		c.Nontrivial = true
 		c06Run(r, c, rng, hs, true)
